@@ -9,8 +9,10 @@ function nameOf(x) {
   if (typeof x === "object" && typeof x.valueOf() === "number") return "prim"; // sloppy getter/setter boxing
   return "?";
 }
-function V(x) { return x === "v1" ? 1 : x === "v2" ? 2 : undefined; }
-function vname(v) { return v === 1 ? "v1" : v === 2 ? "v2" : v === undefined ? "u" : v === "gv" ? "gv" : "?" + String(v); }
+// abstract values: numbers 1 / 2, or (kind strchar: the key is a character position of a String object) the characters "a" / "b"
+function CH() { return CFG.kind === "strchar"; }
+function V(x) { return x === "v1" ? (CH() ? "a" : 1) : x === "v2" ? (CH() ? "b" : 2) : undefined; }
+function vname(v) { return v === (CH() ? "a" : 1) ? "v1" : v === (CH() ? "b" : 2) ? "v2" : v === undefined ? "u" : v === "gv" ? "gv" : "?" + String(v); }
 function B(x) { return x === "T"; }
 function tf(b) { return b ? "T" : "F"; }
 var KINDS = {
@@ -27,6 +29,7 @@ var KINDS = {
   args: function() { return (function(a, b) { return arguments; })(7, 8); },
   sargs: function() { return (function(a, b) { "use strict"; return arguments; })(7, 8); },
   strobj: function() { return new String("xy"); },
+  strchar: function() { return new String("a"); },     // index 0 is the model key: a fixed non-writable, non-configurable character
   numobj: function() { return new Number(5); },
   typed: function() { return new Uint8Array(0); },   // with elements Object.freeze must throw (ObjTyped covers indices)
   err: function() { return new Error("e"); },
@@ -140,6 +143,8 @@ function reset() {
   });
   CFG.objs.forEach(function(n) { if (CFG.proto[n]) Object.setPrototypeOf(O[n], O[CFG.proto[n]]); });
   if (CFG.keymap === "tmpl" && !Reflect.deleteProperty(O[CFG.objs[0]], KEY.k)) throw new Error("template property not deletable");
+  if (CFG.initprop === "FrozenV1" && CFG.kind !== "strchar")
+    CFG.objs.forEach(function(n) { Object.defineProperty(O[n], KEY.k, {value: V("v1"), writable: false, enumerable: true, configurable: false}); });
   return obs();
 }
 function mkDesc(d) {
